@@ -23,7 +23,7 @@ COMPARANDS = [
     0, 1, -1, 2, 10, 1.0, 1.5, -0.0, 0.1, 100, 1e2, -1.5, 2.5e-3,
     # integers beyond 2^53 (exact in Python and in the model): neighbours that round to the same double
     9007199254740992, 9007199254740993, 9007199254740994, -9007199254740993, 10**25, 10**25 + 1, 123456789012345.5, 10**400,
-    "", "a", "b", "ab", "A", "é", "￿", "𐀀", "😀", "1", "true",
+    "", "a", "b", "ab", "A", "é", "￿", "𐀀", "😀", "1", "true", "\U00020000", "\U0010ffff", "\U000f0000z",
     True, False, None,
     [], [1], [True], [1.0], [0], [False], [1, [True]], [1, [1]], [[]], ["a"], [None],
     {}, {"a": 1}, {"a": True}, {"a": 1.0}, {"a": 1, "b": 2}, {"b": 2, "a": 1}, {"a": {"b": [1]}}, {"a": {"b": [True]}},
@@ -122,6 +122,13 @@ def run(chk: core.Check, tier: str, seed: int) -> None:
                 for op in OPS:
                     recs.append(impl.rec_find(jp, f"$.t[?value(@.r) {op} {lit(sp, a)}]", doc, edoc=edoc))
                     recs.append(impl.rec_find(jp, f"$.t[?{lit(sp, a)} {op} value(@.l)]", doc, edoc=edoc))
+                if isinstance(a, str) and a:
+                    # the literal spelled entirely with \uXXXX escapes (surrogate pairs beyond the BMP), both quote styles
+                    esc = "".join(f"\\u{ord(c):04x}" if ord(c) < 0x10000 else
+                                  f"\\u{0xD800 + ((ord(c) - 0x10000) >> 10):04X}\\u{0xDC00 + ((ord(c) - 0x10000) & 0x3FF):04x}" for c in a)
+                    for op in OPS:
+                        q = "'" if op in ("==", "<", ">=") else '"'
+                        recs.append(impl.rec_find(jp, f"$.t[?@.l {op} {q}{esc}{q}]", doc, edoc=edoc))
     # siblings: all comparands as the children of ONE array / object, the child itself ('@') being the comparand:
     # each child is judged on its own, whatever was tested before it (equal-but-different kinds next to each other:
     # 1, 1.0, true; 0, -0.0, false; "1"; [1], [true]; ...), in several orders
@@ -158,7 +165,7 @@ def run(chk: core.Check, tier: str, seed: int) -> None:
         chk.nontrivial.add((tuple(r["q"]), str(r["doc"])[:300]))
     chk.sample({"query": core.dec_text(recs[5]["q"]), "doc": core.dec_value(recs[5]["doc"]), "locs": recs[5]["locs"]})
     common.judge(chk, recs, "c06", what="Trace: comparison records vs JsonVal!Cmp",
-                 only=lambda c: c.startswith("C13 find") or not c.startswith(("C03", "C04", "C05", "C13")))
+                 only=lambda c: c.startswith(("C13 find", "C03")) or not c.startswith(("C03", "C04", "C05", "C13")))
     chk.exhaustive = tier != "quick"
     chk.rule = (
         f"ordered pairs over {len(COMPARANDS)} comparands (numbers incl. equal int/float and -0.0, strings incl. non-BMP, "
